@@ -265,6 +265,53 @@ Proof.
   - unfold region_invalid_byte. rewrite V. cbn [negb]. now rewrite andb_false_r.
 Qed.
 
+(* ---------- even inside the finding regions the upstream path DECODES to the right path ---------- *)
+Lemma lt256_app a b : all_lt_256 a = true -> all_lt_256 b = true -> all_lt_256 (a ++ b) = true.
+Proof. unfold all_lt_256. intros A B. rewrite forallb_app. now rewrite A, B. Qed.
+Lemma lt256_skipn n : forall l, all_lt_256 l = true -> all_lt_256 (skipn n l) = true.
+Proof.
+  unfold all_lt_256. induction n as [|n IH]; intros l H; [exact H|].
+  destruct l as [|c r]; [reflexivity|]. cbn [skipn]. cbn [forallb] in H.
+  apply andb_true_iff in H as [_ H]. now apply IH.
+Qed.
+Lemma lt256_slash_fix l : all_lt_256 l = true -> all_lt_256 (slash_fix l) = true.
+Proof.
+  intros H. unfold slash_fix. destruct (has_prefix l [47]); [exact H|].
+  unfold all_lt_256 in *. cbn [forallb]. now rewrite H.
+Qed.
+Lemma lt256_target_path path strip prepend :
+  all_lt_256 path = true -> all_lt_256 prepend = true ->
+  all_lt_256 (target_path path strip prepend) = true.
+Proof.
+  intros A B. unfold target_path.
+  assert (C : all_lt_256 (if strip_applies path strip then slash_fix (skipn (length strip) path) else path) = true).
+  { destruct (strip_applies path strip); [apply lt256_slash_fix, lt256_skipn|]; exact A. }
+  destruct (nonempty prepend); [apply lt256_slash_fix, lt256_app|]; assumption.
+Qed.
+
+Theorem upstream_path_denotes wire o q u :
+  all_lt_256 (rq_target q) = true -> all_lt_256 (ro_prepend o) = true ->
+  forward wire o q = Ok u ->
+  exists rp path,
+    unescape (raw_path_of (rq_target q)) = Ok path
+    /\ up_target u = rp ++ spec_query o (rq_target q)
+    /\ unescape rp = Ok (target_path path (ro_strip o) (ro_prepend o)).
+Proof.
+  intros Hb Hp F.
+  destruct (forward_target _ _ _ _ F) as (path & rp & raw & Hraw & [r Hr] & [t Ht] & U & RP & K).
+  assert (Hbp : all_lt_256 path = true).
+  { eapply unescape_lt256; [|exact U]. rewrite Hraw. now apply cut_q_lt256. }
+  set (tp := target_path path (ro_strip o) (ro_prepend o)) in *.
+  assert (A : exists t', tp = 47 :: t') by (apply target_path_abs; eauto).
+  destruct (escaped_path_abs tp rp A) as [x E].
+  { rewrite RP. destruct (beq (escape path) raw); [now left | right; eauto]. }
+  exists (47 :: x), path. rewrite <- Hraw. split; [exact U|]. split; [now apply K|].
+  assert (D : out_is (unescape (escaped_path tp rp)) tp = true).
+  { apply escaped_path_denotes; [now apply lt256_target_path|]. destruct A as [t' ->]. discriminate. }
+  rewrite E in D. destruct (unescape (47 :: x)) as [y| |]; cbn [out_is] in D; try discriminate.
+  apply beq_eq in D. now subst y.
+Qed.
+
 (* ---------- Host ---------- *)
 Theorem host_spec wire o q u : forward wire o q = Ok u -> up_host u = spec_host o (rq_host q).
 Proof.
